@@ -72,6 +72,18 @@ def plan(tier, seed):
     for nd, n in ((1, 16), (1, 33), (2, 8), (2, 16), (3, 8), (3, 5)):
         for ov in (1.25, 2):
             P.add("worst", grid=[n] * nd, oversamp=ov, width=4)
+    # realistic sizes (256 x 256 images, multi-channel volumes): oversampled grids beyond 256
+    # samples per axis and beyond 2**24 samples in total, unordered coordinates; the exact
+    # transform is evaluated without its matrix (vf.oracles.ndft.ndft_separable)
+    real_ = [([256, 256], [], 1.25, 160), ([140, 150], [], 2, 120), ([96, 96, 96], [12], 1.25, 20),
+             ([300, 220], [3], 1.25, 100), ([1000], [], 1.25, 300), ([4099], [5], 2, 200),
+             ([205, 64], [], 1.25, 150), ([64, 64, 300], [], 1.25, 40), ([640, 640], [32], 1.25, 24),
+             ([130, 24, 140], [2], 2, 40), ([257, 255], [7], 1.25, 80), ([48, 48, 48], [70], 1.25, 16)]
+    rngr = P.rng("realistic")
+    for i, (grid, batch, ov, M) in enumerate(real_[:3] if quick else real_):
+        P.add("realistic", grid=grid, batch=batch, oversamp=ov, width=4, M=M,
+              ccls=pick(rngr, ["inside", "inside", "outside"]), cseed=int(rngr.integers(1 << 30)),
+              timeout=900)
     # histories: the same image size transformed with several (oversamp, width) settings in
     # one process - in particular oversampling factors that round to the same oversampled grid
     # size - then the first setting again: anything cached between calls must be keyed by
@@ -118,6 +130,69 @@ def metric(y, ref, x, M, N):
     return nrm(y - ref) / den if den > 0 else nrm(y - ref)
 
 
+def run_realistic(case, rng):
+    import sigpy as sp
+    grid, batch, ov, w, M = case["grid"], case["batch"], case["oversamp"], case["width"], case["M"]
+    nd = len(grid)
+    N = int(np.prod(grid))
+    coord = lops.make_coord(case["cseed"], [M], grid, case["ccls"])
+    coord = coord[np.random.default_rng(case["cseed"]).permutation(M)]      # no order at all
+    x = (rng.standard_normal(batch + grid, dtype=np.float32)
+         + 1j * rng.standard_normal(batch + grid, dtype=np.float32))
+    sig = "realistic|%dd|%s|b%d|%s" % (nd, "x".join(map(str, grid)), int(np.prod(batch)) if batch
+                                       else 0, ov)
+    wit = {k: case[k] for k in ("grid", "batch", "oversamp", "width", "M", "ccls", "cseed")}
+    wit["nd"] = nd
+    y = sp.nufft(x, coord, oversamp=ov, width=w)
+    if tuple(y.shape) != tuple(batch) + (M,):
+        return violated(sig, "nufft output shape %s, expected %s" % (y.shape, tuple(batch) + (M,)),
+                        wit, mech="shape")
+    ref = O.ndft_separable(x, coord, nd)
+    th = THRESH[(ov, w)]
+    bound = th if nd == 1 else max(th, sep_bound(ov, nd))
+    checks = 0
+    worst = 0.0
+    yb, rb, xb = y.reshape(-1, M), ref.reshape(-1, M), x.reshape((-1,) + tuple(grid))
+    for b_ in range(yb.shape[0]):              # every batch entry on its own
+        err = metric(yb[b_], rb[b_], xb[b_], M, N)
+        checks += 1
+        worst = max(worst, err)
+        if not err <= bound:
+            return violated(sig, "nufft of batch entry %d of %d differs from the exact "
+                            "non-uniform DFT: relative l2 error %.4f (bound %.3g; grid %s, "
+                            "oversamp %s)" % (b_, yb.shape[0], err, bound, grid, ov),
+                            dict(wit, err=err), mech="threshold", obs={"err": err})
+    # adjoint: values at sampled voxels of every batch entry against the exact adjoint sum,
+    # and the inner-product identity
+    d = (rng.standard_normal(batch + [M], dtype=np.float32)
+         + 1j * rng.standard_normal(batch + [M], dtype=np.float32))
+    xa = sp.nufft_adjoint(d, coord, batch + grid, oversamp=ov, width=w)
+    if tuple(xa.shape) != tuple(batch + grid):
+        return violated(sig, "nufft_adjoint output shape %s, expected %s" % (
+            xa.shape, tuple(batch + grid)), wit, mech="shape")
+    V = 64
+    vox = np.stack([rng.integers(0, g, V) for g in grid], axis=-1)
+    got = xa.reshape((-1,) + tuple(grid))[(slice(None),) + tuple(vox[:, a] for a in range(nd))]
+    refa = O.ndft_adjoint_at(d, coord, grid, vox).reshape(-1, V)
+    for b_ in range(got.shape[0]):
+        den = max(nrm(refa[b_]), np.sqrt(V / N) * nrm(d.reshape(-1, M)[b_]))
+        erra = nrm(got[b_] - refa[b_]) / den if den > 0 else nrm(got[b_] - refa[b_])
+        checks += 1
+        worst = max(worst, erra)
+        if not erra <= 3 * bound:
+            return violated(sig, "nufft_adjoint of batch entry %d of %d differs from the exact "
+                            "adjoint sum at %d sampled voxels: relative error %.4f" % (
+                                b_, got.shape[0], V, erra), dict(wit, err=erra),
+                            mech="adjoint-values", obs={"err": erra})
+    lhs, rhs = inner(y, d), inner(x, xa)
+    sc = nrm(y) * nrm(d) + nrm(x) * nrm(xa) + 1e-300
+    checks += 1
+    if not abs(lhs - rhs) <= 2e-4 * sc:
+        return violated(sig, "<nufft x, d> = %s but <x, nufft_adjoint d> = %s" % (lhs, rhs), wit,
+                        mech="adjoint")
+    return held(sig, {"worst_err": worst, "bound": bound}, checks)
+
+
 def run_case(case):
     import sigpy as sp
     rng = rng_for(case)
@@ -155,6 +230,9 @@ def run_case(case):
                                 err, THRESH[(ov, w)], nd, grid, ov, w), wit,
                             mech="threshold", obs=obs)
         return held(sig, obs, 1)
+
+    if case["gen"] == "realistic":
+        return run_realistic(case, rng)
 
     if case["gen"] == "history":
         M = case["M"]
